@@ -162,6 +162,23 @@ def r1_wiring(ctx):
         ok = bool(vals) and A.const(vals[-1]) == want
         yield Ob(key + ' resets %s to %d' % (counter_reset, want), ok, W(bfn, arm),
                  '' if ok else '%s assigned %s' % (counter_reset, [norm(v) for v in vals]))
+    # bookkeeping of a header branch is unconditional: push, count, record (a conditional one breaks the trailer comparison
+    # for exactly the documents that take the other path)
+    def top_level(arm, pred):
+        return [st for st in arm.body if pred(st)]
+    for hname, (ctrl, seen, _r, _c) in HEADERS.items():
+        arm = base[hname]
+        push = top_level(arm, lambda st: isinstance(st, ast.Expr) and isinstance(st.value, ast.Call) and A.call_target(st.value) == ('self.loops', 'append'))
+        rec = top_level(arm, lambda st: isinstance(st, ast.Expr) and isinstance(st.value, ast.Call) and A.call_target(st.value) == ('self.' + seen, 'append'))
+        ok = len(push) == 1 and len(rec) == 1
+        yield Ob('x12file:X12Base._parse_segment[%s] pushes and records unconditionally' % hname, ok, W(bfn, arm),
+                 '' if ok else 'the push of (%s, id) or the append to %s is nested in a condition' % (hname, seen))
+    for cnt, at in CHILD_COUNTER.items():
+        arm = base[at]
+        inc = top_level(arm, lambda st: isinstance(st, ast.AugAssign) and path_of(st.target) == 'self.' + cnt)
+        ok = len(inc) == 1
+        yield Ob('x12file:X12Base._parse_segment[%s] counts every %s unconditionally' % (at, at), ok, W(bfn, arm),
+                 '' if ok else '%s += 1 is nested in a condition: some %s segments are not counted although they are present' % (cnt, at))
     # child counters are incremented at the child header, by one, and nowhere else in the common code
     for cnt, at in CHILD_COUNTER.items():
         for lab, arm in base.items():
